@@ -140,6 +140,8 @@ def r173(ctx, api):
     r175(ctx)
     r176(ctx)
     r177(ctx)
+    from . import c01 as _c01d
+    _c01d.r125(ctx, 'R17.8')
     from . import c20 as _c20
     _c20.r202(ctx)
     from . import c14, meta_rules, c01
